@@ -6,6 +6,7 @@ import Qentem.Proofs.NumToStrBits
 import Qentem.Proofs.NumToStrAppend
 import Qentem.Proofs.NumToStrIntClass
 import Qentem.Proofs.NumToStrExact
+import Qentem.Proofs.NumToStrIntClass32
 /-! C10 — number to text equals the reference formatting for every value and precision.
 
 Model: `Qentem.NumToStr` (transcription of `Digit.hpp`), reference: `Qentem.FmtSpec` (ISO C
@@ -187,6 +188,24 @@ theorem format_eq_spec_integers (pre : List Nat) (bits p f : Nat) (hp : p ≤ 10
     realToString f64 pre bits p f = .ok (pre ++ FmtSpec.format64 bits p (specFmt f)) := by
   obtain ⟨j, hj⟩ := h
   exact Qentem.Proofs.NumToStr.int_class64 pre bits p f j hf hp hj
+
+/-- integer-valued floats: `2^23 + f = 2^j · odd` with `23 - j ≤ e - 127`; every float of magnitude ≥ 2^23 is one -/
+def IntegerValued32 (bits : Nat) : Prop :=
+  ∃ j, Qentem.Proofs.NumToStr.F32.IntValued32 ((bits / 2 ^ 23) % 2 ^ 8) (bits % 2 ^ 23) j
+
+theorem integer_valued_of_big32 (bits : Nat) (h1 : 150 ≤ (bits / 2 ^ 23) % 2 ^ 8) (h2 : (bits / 2 ^ 23) % 2 ^ 8 < 255) :
+    IntegerValued32 bits :=
+  Qentem.Proofs.NumToStr.F32.intValued_of_big h1 h2 (Nat.mod_lt _ (Nat.two_pow_pos 23))
+
+/-- `format_eq_spec_integers32`: every integer-valued float (all |x| ≥ 2^23 and all integers), Fixed and
+SemiFixed, any precision, any stream contents: exactly the reference text. -/
+theorem format_eq_spec_integers32 (pre : List Nat) (bits p f : Nat) (hp : p ≤ 1048576) (hf : f = 1 ∨ f = 2)
+    (h : IntegerValued32 bits) :
+    realToString f32 pre bits p f = .ok (pre ++ FmtSpec.format32 bits p (specFmt f)) := by
+  obtain ⟨j, hj⟩ := h
+  exact Qentem.Proofs.NumToStr.F32.int_class32 pre bits p f j hf hp hj
+
+example : IntegerValued32 0x4B800000 := integer_valued_of_big32 _ (by decide) (by decide)   -- 2^24
 
 /-- non-vacuity: 1e21 (= 0x444B1AE4D6E2EF50) and 3.0 are integer-valued; 0.5 is not -/
 example : IntegerValued64 0x444B1AE4D6E2EF50 := integer_valued_of_big _ (by decide) (by decide)
